@@ -664,3 +664,32 @@ func (c *Ctx) noSuccessBefore(fn *ssa.Function, reads []ssa.CallInstruction, all
 	}
 	c.R.Check(early == nil, construct, c.pos(p), okMsg, badMsg)
 }
+
+// loopVisitsAll: the loop is left before its range is exhausted only on the way
+// to an error return (a `break` for `continue`, an early success, would skip
+// the remaining elements).
+func (c *Ctx) loopVisitsAll(fn *ssa.Function, loop map[*ssa.BasicBlock]bool, construct, okMsg, badMsg string) {
+	if loop == nil {
+		c.R.Unknown(construct, c.pos(fn.Pos()), "the loop was not found")
+		return
+	}
+	_, early := cfgx.OnlyHeaderExits(loop)
+	bad := ""
+	for _, e := range early {
+		for _, x := range cfgx.ErrorReturnsFrom([]cfgx.Edge{e}, nil) {
+			r, isRet := x.At.(*ssa.Return)
+			if !x.NonNil && !(isRet && nonNilError(r) == "nonnil") {
+				bad = c.pos(firstPos(e.From))
+			}
+		}
+	}
+	h := cfgx.LoopHeader(loop)
+	p := fn.Pos()
+	if h != nil {
+		p = firstPos(h)
+	}
+	if bad != "" {
+		badMsg += " (left at " + bad + ")"
+	}
+	c.R.Check(bad == "", construct, c.pos(p), okMsg, badMsg)
+}
